@@ -939,6 +939,11 @@ class Replay:
                     self.report("clone.outputs", "%s answers %s, original %s" % (how, _fmt(y), _fmt(x)), tkey, label)
                 if snapshot(obj, rng=True) != ref:
                     self.report("clone.independent", "using the %s changed the original" % how, tkey, label)
+                elif self.stats["clones"] % 3 == 0:
+                    self.probe_inplace(clone)          # training, arm changes and warm start on the copy
+                    if snapshot(obj, rng=True) != ref:
+                        self.report("clone.independent", "training the %s changed the original: %s"
+                                    % (how, "; ".join(diff(ref, snapshot(obj, rng=True)))), tkey, label)
 
 
 def _fmt(value):
